@@ -1,0 +1,12 @@
+//go:build verif && (!amd64 || !gc || purego)
+
+package chacha20poly1305
+
+// VerifHasAsm reports whether this build contains the assembly Seal/Open.
+func VerifHasAsm() bool { return false }
+
+// VerifUseAVX2 reports whether the assembly path is currently selected.
+func VerifUseAVX2() bool { return false }
+
+// VerifSetUseAVX2 is a no-op in builds without the assembly.
+func VerifSetUseAVX2(on bool) (old bool) { return false }
